@@ -14,7 +14,12 @@ import (
 // Rng is splitmix64; every random choice of a run derives from one state.
 type Rng struct{ s uint64 }
 
-func NewRng(seed uint64) *Rng { return &Rng{s: seed*0x9E3779B97F4A7C15 + 0x1234567} }
+// NewRng scrambles the seed through one splitmix step, so that consecutive seeds give unrelated streams
+// (with a plain multiple of the increment, seed s+1 would be seed s shifted by one draw).
+func NewRng(seed uint64) *Rng {
+	r := &Rng{s: seed ^ 0x5851F42D4C957F2D}
+	return &Rng{s: r.U64() ^ (seed * 0xD1342543DE82EF95)}
+}
 
 func (r *Rng) U64() uint64 {
 	r.s += 0x9E3779B97F4A7C15
